@@ -416,7 +416,7 @@ def finish_repo_suite(p: Any, col: common.Collector) -> None:
 
 def run(tier: str, col: common.Collector) -> None:
     suite = start_repo_suite()
-    depth, nalpha = (4, 8) if tier == "quick" else (5, 5)
+    depth, nalpha = (4, 8) if tier == "quick" else (5, 4)
     explore_levels(depth, nalpha, col)
     nrand, length = (6, 100) if tier == "quick" else (120, 200)
     common.pmap(random_histories, [(w, nrand, length) for w in range(common.NCPU)], col)
